@@ -33,5 +33,16 @@ Theorem C18_gain_leaves_intensity_variance (k T gamma st sv : Q) : ~ k == 0 -> ~
   (- (T * T) / (gamma * st)) * (- (T * T) / (gamma * st)) * sv.
 Proof. exact (intensity_term_gain_invariant k T gamma st sv). Qed.
 
+(* removing fibre locations that belong to no reference section: what a stretch sees of the fibre - the (x, data) pairs at
+   the selected positions - are exactly the pairs whose x lies in the stretch, in fibre order; hence deleting a location
+   that lies outside the stretch changes nothing that the stretch sees (data of any type: intensities, rows over time) *)
+Theorem C18_a_stretch_sees_exactly_its_locations {D} (xd : list (Q * D)) s dflt :
+  map (fun i => nth i xd dflt) (sel (map fst xd) s) = filter (fun p => inb (fst p) s) xd.
+Proof. exact (sel_values xd s dflt). Qed.
+Theorem C18_unselected_location_is_irrelevant {D} (l1 l2 : list (Q * D)) (p : Q * D) s dflt : inb (fst p) s = false ->
+  map (fun i => nth i (l1 ++ p :: l2) dflt) (sel (map fst (l1 ++ p :: l2)) s) =
+  map (fun i => nth i (l1 ++ l2) dflt) (sel (map fst (l1 ++ l2)) s).
+Proof. exact (unselected_location_is_irrelevant l1 l2 p s dflt). Qed.
+
 Print Assumptions C18_section_order_is_irrelevant. Print Assumptions C18_row_order_is_irrelevant. Print Assumptions C18_gain_leaves_weights.
-Print Assumptions C18_gain_moves_the_optimum_by_a_shift. Print Assumptions C18_gain_leaves_intensity_variance.
+Print Assumptions C18_gain_moves_the_optimum_by_a_shift. Print Assumptions C18_gain_leaves_intensity_variance. Print Assumptions C18_a_stretch_sees_exactly_its_locations. Print Assumptions C18_unselected_location_is_irrelevant.
